@@ -32,6 +32,7 @@ type c19Case struct {
 	ReqMs      int    `json:"request_takes_ms"`
 	Mode       string `json:"mode"` // once | twice | concurrent | stop-only
 	Pool       int    `json:"pooled_conns"`
+	NoActive   bool   `json:"no_active_checks,omitempty"` // active health checks off: nothing to wait for, the rest of the shutdown is the same
 }
 
 func c19Run(e *vh.Env, c c19Case, o *vh.Out) {
@@ -41,7 +42,7 @@ func c19Run(e *vh.Env, c c19Case, o *vh.Out) {
 		b.SetProbe(200, time.Duration(c.ProbeMs)*time.Millisecond)
 	}
 	cfg := baseConfig(c.Strategy, bes)
-	cfg.HealthChecks.Active = config.ActiveHealthCheckConfig{Enabled: true, Interval: c.Interval, Timeout: c.ProbeTO, Path: "/health"}
+	cfg.HealthChecks.Active = config.ActiveHealthCheckConfig{Enabled: !c.NoActive, Interval: c.Interval, Timeout: c.ProbeTO, Path: "/health"}
 	cfg.HealthChecks.Passive = config.PassiveHealthCheckConfig{Enabled: true, UnhealthyThreshold: 3, UnhealthyTimeout: 30}
 	cfg.Server.Timeouts = config.TimeoutConfig{Read: 30, Write: 30, Idle: 60, Shutdown: c.ShutdownTO, BackendRead: 30}
 	if c.Pool != 0 { // -1: pool enabled but empty when the stop signal arrives
@@ -188,6 +189,9 @@ func c19Run(e *vh.Env, c c19Case, o *vh.Out) {
 	if len(pooled) > 0 {
 		o.Obs("pooled_closed", int64(len(pooled)))
 	}
+	if c.NoActive {
+		o.Obs("shutdowns_without_active_checks", 1)
+	}
 	if c.Pool != 0 {
 		// a tunnel that ends after shutdown hands its connection back: the pool must not keep it open
 		p := sys.LB.VerifWSPool()
@@ -247,10 +251,19 @@ func init() {
 					}
 				}
 			}
+			// the same without active health checks
+			for i, mode := range []string{"once", "twice", "concurrent", "stop-only"} {
+				for j, inflight := range []string{"none", "headers", "body"} {
+					if mode == "stop-only" && inflight != "none" {
+						continue
+					}
+					cs = append(cs, c19Case{Strategy: allStrategies[(i+j)%5], Interval: 2, ProbeTO: 1, ShutdownTO: 3, StopAtMs: 700 + 300*j, Inflight: inflight, ReqMs: 1500, Mode: mode, Pool: 2 - (i+j)%4, NoActive: true})
+				}
+			}
 			return cs
 		},
 		func(e *vh.Env, c c19Case, o *vh.Out) {
-			o.Need("shutdowns", "inflight_completed", "probe_silence_checked", "pooled_closed", "late_put_refused")
+			o.Need("shutdowns", "inflight_completed", "probe_silence_checked", "pooled_closed", "late_put_refused", "shutdowns_without_active_checks")
 			c19Run(e, c, o)
 			o.Distinct(vh.J(c))
 			if c.Mode == "concurrent" && c.Inflight == "body" && c.Interval == 2 && c.StopAtMs == 2001 {
@@ -355,6 +368,9 @@ func init() {
 		ReqMs   int    `json:"request_takes_ms"`
 		Phase   string `json:"phase"`
 		Idx     int    `json:"idx"`
+		// ShutdownS / UptimeMs: a shorter shutdown timeout and a process that has been up for longer than it
+		ShutdownS int `json:"shutdown_timeout_s,omitempty"`
+		UptimeMs  int `json:"uptime_before_request_ms,omitempty"`
 	}
 	vh.AddPart("C19", "process", "plain", vh.Opts{Shards: 8, Procs: 2, TimeoutS: 400, TimeoutSThorough: 1500, NeedBin: true},
 		func(e *vh.Env) []c19Proc {
@@ -363,15 +379,22 @@ func init() {
 			for i := 0; i < e.Pick(10, 60); i++ {
 				cs = append(cs, c19Proc{Signal: []string{"TERM", "INT"}[i%2], AfterMs: 50 + r.Intn(400), ReqMs: 700, Phase: []string{"body", "headers"}[(i/2)%2], Idx: i})
 			}
+			// a process that has been up for longer than its shutdown timeout: the timeout counts from the signal
+			for i := 0; i < e.Pick(2, 6); i++ {
+				cs = append(cs, c19Proc{Signal: []string{"TERM", "INT"}[i%2], AfterMs: 100, ReqMs: 300, Phase: []string{"body", "headers"}[i%2], Idx: 100 + i, ShutdownS: 2, UptimeMs: 2600})
+			}
 			return cs
 		},
 		func(e *vh.Env, c c19Proc, o *vh.Out) {
-			o.Need("process_runs", "process_clean_exits")
+			o.Need("process_runs", "process_clean_exits", "signals_after_uptime_beyond_shutdown_timeout")
 			be := vh.NewBackend("b0")
 			defer be.Close()
 			cfg := baseConfig("round_robin", []*vh.Backend{be})
 			cfg.Server.Port = freePort()
 			cfg.Server.Timeouts.Shutdown = 5
+			if c.ShutdownS > 0 {
+				cfg.Server.Timeouts.Shutdown = c.ShutdownS
+			}
 			cfg.Logging.Level = "info"
 			cfg.HealthChecks.Active = config.ActiveHealthCheckConfig{Enabled: true, Interval: 1, Timeout: 0, Path: "/health"}
 			cfg.HealthChecks.Active.Timeout = 1
@@ -414,6 +437,10 @@ func init() {
 				}
 				o.Inconcl("binary did not come up (its port may have been taken by another process)")
 				return
+			}
+			if c.UptimeMs > 0 {
+				time.Sleep(time.Duration(c.UptimeMs) * time.Millisecond)
+				o.Obs("signals_after_uptime_beyond_shutdown_timeout", 1)
 			}
 			var sc vh.Script
 			if c.Phase == "body" {
@@ -464,7 +491,7 @@ func init() {
 				if rs != nil {
 					st, bl, er = rs.Status, rs.BodyLen, rs.Err
 				}
-				o.Viol("C19|process|inflight-cut|"+c.Phase, fmt.Sprintf("%s: the request in flight at SIG%s (needs %d ms, shutdown timeout 5 s) ended with status %d, %d of 3000 bytes, err %q; process exited after %v", ctx, c.Signal, c.ReqMs, st, bl, er, took), nil)
+				o.Viol("C19|process|inflight-cut|"+c.Phase, fmt.Sprintf("%s: the request in flight at SIG%s (needs %d ms, shutdown timeout %d s) ended with status %d, %d of 3000 bytes, err %q; process exited after %v", ctx, c.Signal, c.ReqMs, cfg.Server.Timeouts.Shutdown, st, bl, er, took), nil)
 				return
 			}
 			if !strings.Contains(string(out), "server shutdown complete") {
